@@ -353,6 +353,11 @@ def _variants():
 
     PE, MP = "permuta/patterns/perm.py", "permuta/patterns/meshpatt.py"
     return [
+        V("unrank-table-wrong-factor", replace_expr(PE, "Perm.unrank", "i * factorial[-1]", "(length - 1) * factorial[-1]"), "fire", "C09-F1"),
+        V("unrank-table-initial", replace_stmt(PE, "Perm.unrank", "factorial = [1, 1]", "factorial = [1, 2]"), "fire", "C09-F1"),
+        V("rank-table-off-by-one", replace_expr(PE, "Perm.rank", "fact[i] * (i + 1)", "fact[i] * i"), "fire", "C09-F1"),
+        V("unrank-table-len-form", replace_expr(PE, "Perm.unrank", "i * factorial[-1]", "len(factorial) * factorial[-1]"), "silent"),
+        V("unrank-shared-table", [insert_stmt(PE, "Perm", "ind2perm = unrank", "_FACTORIALS = [1, 1]", "after"), replace_stmt(PE, "Perm.unrank", "factorial = [1, 1]", "factorial = cls._FACTORIALS")], "undecided", "C09-H1"),
         V("of-length-filtered", replace_expr(PE, "Perm.of_length", "(cls(perm) for perm in itertools.permutations(range(length)))", "(cls(perm) for perm in itertools.permutations(range(length)) if perm)"), "fire", "C09-G1"),
         V("of-length-reversed", replace_expr(PE, "Perm.of_length", "itertools.permutations(range(length))", "itertools.permutations(range(length - 1, -1, -1))"), "fire", "C09-G1"),
         V("up-to-length-exclusive", replace_expr(PE, "Perm.up_to_length", "range(length + 1)", "range(length)"), "fire", "C09-G1"),
@@ -447,3 +452,147 @@ def run(ctx: Ctx) -> None:  # noqa: F811
 
 
 FLOORS["C09-D1"] = 7
+
+
+# ------------------------------------------------------------------ H1: no unreviewed state shared between calls
+
+
+def rule_h1(ctx: Ctx) -> None:
+    from ..core import check_no_unreviewed_shared_state
+
+    check_no_unreviewed_shared_state(ctx, "C09-H1", ["Perm", "MeshPatt", "Patt"], ["permuta.patterns.perm", "permuta.patterns.meshpatt", "permuta.patterns.patt"], {},
+                                     "generation, ranking and the notations")
+
+
+_OLD_RUN_H = run
+
+
+def run(ctx: Ctx) -> None:  # noqa: F811
+    _OLD_RUN_H(ctx)
+    ctx.run(rule_h1, ctx)
+
+
+FLOORS["C09-H1"] = 1
+
+
+# ------------------------------------------------------------------ F1: factorial tables hold factorials
+
+
+def _fact_tables(fi: FuncInfo) -> Dict[str, ast.AST]:
+    """locals that are used as a factorial table: a list that is appended to with a product involving its own entries."""
+    out: Dict[str, ast.AST] = {}
+    for node in walk_no_nested(fi.node):
+        if isinstance(node, ast.Call) and isinstance(node.func, ast.Attribute) and node.func.attr == "append" and isinstance(node.func.value, ast.Name) and len(node.args) == 1:
+            t = node.func.value.id
+            if isinstance(node.args[0], ast.BinOp) and isinstance(node.args[0].op, ast.Mult) and any(isinstance(x, ast.Subscript) and unparse(x.value) == t for x in ast.walk(node.args[0])):
+                out[t] = node
+    return out
+
+
+def rule_f1(ctx: Ctx) -> None:
+    from .c17 import lin, lin_diff
+
+    repo = ctx.repo
+    seen = 0
+    for qual in ("unrank", "rank"):
+        fi = repo.need_method("Perm", qual)
+        tables = _fact_tables(fi)
+        if not tables:
+            raise AnalysisError(f"{fi.where}: no factorial table found")
+        for t in tables:
+            # initial value: a display of factorials (or a shared class-level display)
+            inits = [n for n in walk_no_nested(fi.node) if isinstance(n, (ast.Assign, ast.AnnAssign)) and n.value is not None
+                     and any(isinstance(x, ast.Name) and x.id == t for x in (n.targets if isinstance(n, ast.Assign) else [n.target]))]
+            if len(inits) != 1:
+                raise AnalysisError(f"{fi.where}: table `{t}` is bound {len(inits)} times")
+            init = inits[0].value
+            if isinstance(init, ast.Attribute) and isinstance(init.value, ast.Name) and init.value.id in ("cls", "self", "Perm"):
+                src = None
+                for ci in repo.mro("Perm"):
+                    if init.attr in ci.assigns:
+                        src = ci.assigns[init.attr]
+                if src is None:
+                    raise AnalysisError(f"{fi.where}: table `{unparse(init)}` not found")
+                init = src
+            if not (isinstance(init, ast.List) and init.elts and all(isinstance(e, ast.Constant) and isinstance(e.value, int) for e in init.elts)):
+                raise AnalysisError(f"{fi.where}: initial table `{unparse(init)[:40]}` is not a display of integers")
+            vals = [e.value for e in init.elts]
+            f = 1
+            for k, v in enumerate(vals):
+                f = f * k if k else 1
+                if v != f:
+                    ctx.violation("C09-F1", fi, inits[0], f"initial factorial table {vals}: entry {k} is {v}, but {k}! = {f}")
+                    return
+            len0 = len(vals)
+            # every append keeps T[k] = k!
+            for node in walk_no_nested(fi.node):
+                if not (isinstance(node, ast.Call) and isinstance(node.func, ast.Attribute) and node.func.attr == "append" and unparse(node.func.value) == t):
+                    continue
+                seen += 1
+                arg = node.args[0]
+                # N = len(T) at the time of the append; which names equal N (+ const)?
+                env: Dict[str, int] = {}  # name -> offset, meaning name == N + offset
+                for loop in walk_no_nested(fi.node):
+                    if isinstance(loop, ast.For) and any(sub is node for st in loop.body for sub in ast.walk(st)) and isinstance(loop.target, ast.Name) \
+                            and isinstance(loop.iter, ast.Call) and unparse(loop.iter.func) == "range":
+                        appends_here = [x for st in loop.body for x in ast.walk(st) if isinstance(x, ast.Call) and isinstance(x.func, ast.Attribute) and x.func.attr == "append" and unparse(x.func.value) == t]
+                        direct = [st for st in loop.body if isinstance(st, ast.Expr) and st.value is node]
+                        if len(appends_here) != 1 or not direct:
+                            raise AnalysisError(f"{fi.where}: appends to `{t}` in the loop at line {loop.lineno} are conditional or repeated")
+                        a = loop.iter.args[0] if len(loop.iter.args) >= 2 else ast.Constant(value=0)
+                        if unparse(a) == f"len({t})":
+                            env[loop.target.id] = 0
+                        else:
+                            d = lin_diff(a, {"": len0})
+                            if d is None:
+                                raise AnalysisError(f"{fi.where}: loop start `{unparse(a)}` not related to the table length")
+                            earlier = [x for x in walk_no_nested(fi.node) if isinstance(x, ast.Call) and isinstance(x.func, ast.Attribute) and x.func.attr in ("append", "extend", "pop", "insert")
+                                       and unparse(x.func.value) == t and x.lineno < loop.lineno]
+                            if earlier or init is not inits[0].value:
+                                raise AnalysisError(f"{fi.where}: the table `{t}` may not have its initial length when the loop at line {loop.lineno} starts")
+                            # requires that the table still has its initial length when the loop starts
+                            env[loop.target.id] = d
+
+                def as_n(e: ast.AST) -> Optional[int]:
+                    """e == N + c  ->  c"""
+                    if unparse(e) == f"len({t})":
+                        return 0
+                    le = lin(e)
+                    if le is None:
+                        return None
+                    c = le.pop("", 0)
+                    if len(le) == 1:
+                        (nm, k), = le.items()
+                        if k == 1 and nm in env:
+                            return env[nm] + c
+                    return None
+
+                def is_last(e: ast.AST) -> bool:
+                    if isinstance(e, ast.Subscript) and unparse(e.value) == t:
+                        if unparse(e.slice) == "-1":
+                            return True
+                        return as_n(e.slice) == -1
+                    return False
+
+                okay = False
+                if isinstance(arg, ast.BinOp) and isinstance(arg.op, ast.Mult):
+                    for x, y in ((arg.left, arg.right), (arg.right, arg.left)):
+                        if is_last(x) and as_n(y) == 0:
+                            okay = True
+                if okay:
+                    ctx.ok("C09-F1", fi.where, f"`{t}.append({unparse(arg)})` appends len({t}) * {t}[-1], keeping {t}[k] = k!", node, fi)
+                else:
+                    ctx.violation("C09-F1", fi, node, f"`{t}.append({unparse(arg)})` does not append len({t}) * {t}[-1]: the table stops holding factorials (entry k must be k!), so rank and unrank stop being inverse for longer permutations")
+    if seen < 3:
+        raise AnalysisError(f"only {seen} factorial-table appends found (3 confirmed by hand)")
+
+
+_OLD_RUN_F = run
+
+
+def run(ctx: Ctx) -> None:  # noqa: F811
+    _OLD_RUN_F(ctx)
+    ctx.run(rule_f1, ctx)
+
+
+FLOORS["C09-F1"] = 3
